@@ -113,6 +113,15 @@ DeclarationSymbol* SemanticModel::addDeclaration(
     return addedDecl;
 }
 
+std::vector<DeclarationSymbol*> SemanticModel::declarations()
+{
+    std::vector<DeclarationSymbol*> decls;
+    decls.reserve(P->decls_.size());
+    for (const auto& decl : P->decls_)
+        decls.push_back(decl.get());
+    return decls;
+}
+
 Type* SemanticModel::keepType(std::unique_ptr<Type> ty)
 {
     auto p = P->tys_.insert(std::make_pair(ty.get(), std::move(ty)));
